@@ -79,27 +79,45 @@ def run(ctx) -> None:
 # ----------------------------------------------------------------------- R1
 def r1_codec(ctx) -> None:
   ns = ctx.index.need_class(f'{COMMON}.Namespace')
-  table = ns.assigns.get('_ns_repr_table')
+  cmod = ns.module
+
+  def const_of(e):
+    # a string constant, possibly through module-level / class-level names
+    for _ in range(4):
+      if isinstance(e, ast.Name) and e.id in cmod.assigns:
+        e = cmod.assigns[e.id]
+      elif isinstance(e, ast.Name) and e.id in ns.assigns:
+        e = ns.assigns[e.id]
+      elif isinstance(e, ast.Attribute) and isinstance(e.value, ast.Name) and e.value.id in ('self', 'cls', ns.name) and e.attr in ns.assigns:
+        e = ns.assigns[e.attr]
+      else:
+        break
+    return e.value if isinstance(e, ast.Constant) and isinstance(e.value, str) else None
+  # the escape table: a str.maketrans({...}) bound to a class attribute of Namespace or to a module-level name
+  tables = {}
+  for name, val in list(ns.assigns.items()) + list(cmod.assigns.items()):
+    if isinstance(val, ast.Call) and (dotted(val.func) or '').endswith('maketrans') and val.args and isinstance(val.args[0], ast.Dict):
+      tables[name] = val
+  table_name, table = next(iter(tables.items()), (None, None))
   keys: Dict[str, str] = {}
-  if isinstance(table, ast.Call) and (dotted(table.func) or '').endswith('maketrans') and table.args \
-      and isinstance(table.args[0], ast.Dict):
+  if table is not None:
     for k, v in zip(table.args[0].keys, table.args[0].values):
-      if isinstance(k, ast.Constant) and isinstance(v, ast.Constant):
-        keys[k.value] = v.value
-  if not keys:
-    raise AnalysisError('Namespace._ns_repr_table (str.maketrans({...})) not found')
+      kc, vc = const_of(k), const_of(v)
+      if kc is not None and vc is not None:
+        keys[kc] = vc
+  if not keys or len(tables) != 1:
+    raise AnalysisError('Namespace escape table (str.maketrans({...})) not found')
   enc = ns.methods.get('encode')
   if enc is None:
     raise AnalysisError('Namespace.encode not found')
   # separator = the constant prepended to each component in encode()
   sep = None
   for n in ast.walk(enc.node):
-    if isinstance(n, ast.BinOp) and isinstance(n.op, ast.Add) and isinstance(n.left, ast.Constant) \
-        and isinstance(n.left.value, str) and isinstance(n.right, ast.Call) \
+    if isinstance(n, ast.BinOp) and isinstance(n.op, ast.Add) and const_of(n.left) is not None \
+        and isinstance(n.right, ast.Call) \
         and isinstance(n.right.func, ast.Attribute) and n.right.func.attr == 'translate':
-      sep = n.left.value
-      ok_table = any(dotted(a) in ('self._ns_repr_table', 'Namespace._ns_repr_table', 'cls._ns_repr_table')
-                     for a in n.right.args)
+      sep = const_of(n.left)
+      ok_table = any((dotted(a) or '').rsplit('.', 1)[-1] == table_name for a in n.right.args)
       ctx.check(ok_table, 'R1', 'encode: every component goes through the escape table', n,
                 'component.translate(_ns_repr_table) prefixed by the separator',
                 'encode does not escape components with _ns_repr_table', construct=n, func=enc.qualname)
@@ -157,6 +175,20 @@ def r2_upsert(ctx) -> None:
           and len(st.value.generators) == 1 and not st.value.generators[0].ifs:
         tgt = st.targets[0] if isinstance(st, ast.Assign) else st.target
         stores.append((st.lineno, st.value.generators[0].iter, st.value.key.elts, st.value.value, unparse(tgt, 0)))
+      # D.update(((ns, key), kv) for kv in ITER) / D.update({(ns, key): kv for kv in ITER}) / D |= {...}
+      upd = None
+      if isinstance(st, ast.Expr) and isinstance(st.value, ast.Call) and isinstance(st.value.func, ast.Attribute) \
+          and st.value.func.attr == 'update' and len(st.value.args) == 1:
+        upd = (st.value.func.value, st.value.args[0])
+      elif isinstance(st, ast.AugAssign) and isinstance(st.op, ast.BitOr):
+        upd = (st.target, st.value)
+      if upd is not None:
+        dct, arg = upd
+        if isinstance(arg, ast.DictComp) and isinstance(arg.key, ast.Tuple) and len(arg.generators) == 1 and not arg.generators[0].ifs:
+          stores.append((st.lineno, arg.generators[0].iter, arg.key.elts, arg.value, unparse(dct, 0)))
+        elif isinstance(arg, (ast.GeneratorExp, ast.ListComp)) and isinstance(arg.elt, ast.Tuple) and len(arg.elt.elts) == 2 \
+            and isinstance(arg.elt.elts[0], ast.Tuple) and len(arg.generators) == 1 and not arg.generators[0].ifs:
+          stores.append((st.lineno, arg.generators[0].iter, arg.elt.elts[0].elts, arg.elt.elts[1], unparse(dct, 0)))
     stores.sort(key=lambda x: x[0])
     problems = []
     if len(stores) < 2:
@@ -287,6 +319,8 @@ def r4_policy_ns(ctx) -> None:
     if init is not None:
       for a, d in zip(reversed(init.node.args.kwonlyargs), reversed(init.node.args.kw_defaults)):
         if a.arg == 'ns_root':
+          if isinstance(d, ast.Name) and d.id in init.module.assigns:
+            d = init.module.assigns[d.id]
           ok = isinstance(d, ast.Constant) and isinstance(d.value, str) and d.value != ''
           ctx.check(ok, 'R4', f'{ci.name}: default ns_root', init.node,
                     f'non-empty reserved root {d.value!r}' if ok else '',
